@@ -45,8 +45,8 @@ pub enum MState {
 #[derive(Clone, Copy, PartialEq, Eq, Debug)]
 pub enum TState {
     NotStarted,
-    BlockedInRecv,
-    AtIdleExit,
+    /// parked in `idle_wait`: its command channel was empty when it last looked
+    Idle,
     AtPoll,
     Running,
 }
@@ -198,40 +198,37 @@ impl SimHooks for Hooks {
         };
         let mut g = self.0.lock();
         g.events.push(Event::IdleEnter(fen));
-        g.t = TState::BlockedInRecv;
-        g.turn = Role::S;
-        self.0.cv.notify_all();
-        // returns into the real recv()
+        // the thread keeps the turn: it now looks into its channel (SimReceiver::recv)
     }
 
-    fn idle_exit(&self) {
+    fn idle_exit(&self) {}
+
+    fn idle_wait(&self) {
+        // the channel was empty: park until the scheduler lets this thread look again
         if role() != Role::T {
             return;
         }
         let mut g = self.0.lock();
-        g.pending = g.pending.saturating_sub(1);
-        g.t = TState::AtIdleExit;
-        g.events.push(Event::IdleExit);
+        g.t = TState::Idle;
+        g.turn = Role::S;
         self.0.cv.notify_all();
         if let Ok(mut g) = self.0.wait_until(g, |s| s.turn == Role::T) {
             g.t = TState::Running;
         }
     }
 
-    fn before_send(&self) {
-        // exact count of undelivered channel messages: incremented before the message exists
-        let mut g = self.0.lock();
-        g.pending += 1;
-    }
-
-    fn drained(&self) {
-        // the search thread has just emptied its channel (wherever it did that)
+    fn idle_received(&self) {
         if role() != Role::T {
             return;
         }
         let mut g = self.0.lock();
-        g.pending = 0;
+        g.events.push(Event::IdleExit);
     }
+
+    // the message-counting seams are not needed any more: the idle thread never blocks in a real recv
+    fn before_send(&self) {}
+
+    fn drained(&self) {}
 
     fn before_join(&self) {
         let mut g = self.0.lock();
